@@ -5,13 +5,14 @@
 // volume server (world.go).
 //
 // Two case kinds:
-//   Small  the write path is entered through the verif hook with an explicit
-//          chunk size of a few BYTES (autoChunk can only produce multiples of
-//          1 MiB); bodies, stored inline content and chunk contents go to Coq
-//          byte for byte.
-//   Big    the request goes through filerHandler/PostHandler/autoChunk with the
-//          real 1 MiB granularity (maxMB query / option); only lengths, offsets
-//          and CRC32s of the relevant body slices / stored pieces go to Coq.
+//
+//	Small  the write path is entered through the verif hook with an explicit
+//	       chunk size of a few BYTES (autoChunk can only produce multiples of
+//	       1 MiB); bodies, stored inline content and chunk contents go to Coq
+//	       byte for byte.
+//	Big    the request goes through filerHandler/PostHandler/autoChunk with the
+//	       real 1 MiB granularity (maxMB query / option); only lengths, offsets
+//	       and CRC32s of the relevant body slices / stored pieces go to Coq.
 package main
 
 import (
@@ -36,20 +37,20 @@ const MiB = 1 << 20
 // ---------- request description ----------
 
 const (
-	mPut = iota
+	mPut          = iota
 	mPostFormDir  // POST multipart to ".../dir/" with a file name
 	mPostFormPath // POST multipart to the full path
 	mPostRaw      // POST with a raw (non multipart) body
 )
 
 const (
-	endEof = iota
+	endEof     = iota
 	endErr     // the reader delivers the bytes, then fails on the next Read
 	endErrData // the reader returns the error together with the last bytes
 )
 
 const (
-	fNone = iota
+	fNone      = iota
 	fAssignAll // every Assign fails
 	fPoison    // uploads of chunk k always fail
 	fTransient // the first upload attempt of chunk k fails
@@ -521,7 +522,7 @@ func (g *gen) smallSpec(r *hx.Rng, cs int, limit int64) *reqSpec {
 
 func (g *gen) smallSequence(r *hx.Rng) {
 	cs := smallCS[r.Intn(len(smallCS))]
-	limits := []int64{0, 0, 1, int64(cs) - 1, int64(cs), int64(cs) + 1, int64(2*cs) + 1, 100}
+	limits := []int64{0, 0, 0, 1, int64(cs) - 1, int64(cs), int64(cs), int64(cs) + 1, int64(2*cs) + 1, 100}
 	limit := limits[r.Intn(len(limits))]
 	name := r.PickStr([]string{"f", "f", "f.txt", "f.jpg"})
 	t := g.newTarget(r.Chance(1, 10), name)
